@@ -573,12 +573,91 @@ def real_protocol(schedule, resource_dir):
 
 
 # ====================================================================== main
+def shared_state_unit(job, variant, pi, seed, only):
+    """replay the harvested calls of the given (component class, method) pairs -- and the states their components reach
+    when time passes -- and compare the snapshot of all module / class level state before and after"""
+    import copy
+    import complib
+    import c02_runner
+    from simlib import random_plan
+    import simlib
+    rng = random.Random(f"C02:shared:{seed}:{job}:{variant}:{pi}")
+    cmds = random_plan(rng, job, variant, 60) if pi % 2 == 0 else simlib.rotation_plan(rng, job, variant, 8)
+    out = {"calls": 0, "failing": []}
+    with complib.Harvest(4000, only={tuple(x) for x in only}) as hv:
+        eng = simlib.make_engine(job, variant)
+        for i, c in enumerate(cmds):
+            eng.exec(c)
+            if i % 4 == 0:
+                complib.eval_views(eng)
+    calls = list(hv.calls.values())
+    extra = []
+    for call in calls:
+        owner = call["owner"]
+        if "elapse" in getattr(type(owner), "__reducers__", ()):
+            for T in (15_000.0, 45_000.0, 100_000.0):
+                try:
+                    st2 = owner.elapse(T, copy.deepcopy(call["args"][-1]))[0]
+                    if type(st2) is type(call["args"][-1]):
+                        extra.append({**call, "args": tuple(list(copy.deepcopy(call["args"][:-1])) + [st2])})
+                except Exception:  # noqa: BLE001
+                    pass
+    calls += extra[:3000]
+    frame = c02_runner.Frame()
+
+    def run(batch):
+        for call in batch:
+            try:
+                getattr(call["owner"], call["method"])(*copy.deepcopy(call["args"]))
+            except Exception:  # noqa: BLE001
+                pass
+        n = len(frame.violations)
+        frame.check("replayed reducer calls")
+        return frame.violations[n:]
+
+    out["calls"] = len(calls)
+    bad = run(calls)
+    if bad:
+        # find one call that does it (the state was already changed once: look for a call that changes it AGAIN)
+        culprit = None
+        for call in calls:
+            if run([call]):
+                culprit = call
+                break
+        out["failing"].append({"kind": "shared-state-changed-by-a-reducer-call", "job": job,
+                               "cells": sorted({v["cell"] for v in bad})[:5],
+                               "component_class": None if culprit is None else type(culprit["owner"]).__name__,
+                               "method": None if culprit is None else culprit["method"],
+                               "payload": None if culprit is None or culprit["is_view"] else complib.dump_arg(culprit["args"][0]),
+                               "state": None if culprit is None else complib.dump_arg(culprit["args"][-1])})
+    return out
+
+
 def main(ck: Check):
     quick = ck.tier == "quick"
     rng = ck.rng
     ref_seed = 0
     other_seeds = [1] if quick else [1, 1000 + ck.seed % 4000000]
     t_start = time.time()
+
+    # ---- reducers / views that READ a module-level mutable object (found by the effect translator): the calls most
+    #      likely to change process-wide state; none on the unchanged tree.  Their harvested calls are replayed with a
+    #      snapshot of all shared state around them.
+    shared_targets, shared_calls = [], 0
+    try:
+        import gen_effects
+        shared_targets = sorted({(e["cls"], e["method"]) for e in gen_effects.lower_all() if e.get("global_reads")})
+    except Exception as e:  # noqa: BLE001
+        ck.notes.append(f"gen_effects.lower_all failed: {type(e).__name__}: {e}"[:300])
+    if shared_targets:
+        work0 = [(job, v, pi, ck.seed, shared_targets) for job in JOBS for v in (0, 1) for pi in range(2 if quick else 6)]
+        for args, out in pmap(shared_state_unit, work0, max(30.0, ck.budget_s * 0.2)):
+            if args is None:
+                ck.notes.append(f"budget reached in the shared-state replay: {out}")
+                continue
+            shared_calls += out["calls"]
+            for f in out["failing"][:2]:
+                ck.add_failing(f)
 
     # ---- static inventory
     inv = static_inventory(REPO / "simaple")
@@ -898,6 +977,8 @@ def main(ck: Check):
         "comparisons_per_context": per_context,
         "orders": [{"label": l, "length": len(o)} for l, o in orders],
         "thread_rounds": [{"kind": r["kind"], "threads": r["threads"], "units": len(r["order"])} for r in th_jobs],
+        "methods_reading_module_level_mutable_objects": [f"{c}.{m}" for c, m in shared_targets],
+        "their_calls_replayed_with_a_shared_state_snapshot": shared_calls,
         "build_path_effect_programs": None if patch_table is None else
             [{"entry": e["name"], "obligation": e["api"], "accepted_by_the_effect_checker": e["wellFormed"],
               "recursive": e["recursive"], "statements": e["size"]} for e in patch_table["entries"]],
